@@ -292,6 +292,9 @@ def run(chk):
 def replay(chk, obj):
     from note_seq.protobuf import music_pb2
     import random
+    if 'extraction' in obj:      # tie-break stream of c12_extra_b (chord extraction over a later step range)
+        from harness import c12_extra_b
+        return c12_extra_b.replay(chk, obj)
     ns = nswire.decode(obj['sequence'])
     p = nswire.decode(obj['permuted'])
     name = obj['operation']
